@@ -506,7 +506,8 @@ def specs():
     add("convert_node", node, "Real", C("Float", float=Kid("lit")))
     add("convert_node", node, "ENum", C("ENum", num=OneOf(Kid("num"), Call("decimal_integer", "num")), exp=Call("decimal_integer", "exp")))
     add("convert_node", node, "DocStr", C("DocStr", string=Kid("lit")))
-    add("convert_node", node, "Str", OneOf(C("Str", string=Kid("lit")), C("FStr", string=Kid("lit"))))
+    # the text of an f-string is the subject of C02 / C01 `interpolations-converted` (a verbatim copy of the literal is a known finding)
+    add("convert_node", node, "Str", OneOf(C("Str", string=Kid("lit")), C("FStr", string=ANY)))
     add("convert_node", node, "Bool", C("Bool", boolean=Kid("lit")))
     add("convert_node", node, "Undefined", C("None"))
     add("convert_node", node, "Underscore", C("UnderScore"))
